@@ -122,7 +122,9 @@ async def scenario(world, spec):
             await asyncio.sleep(d)
         rid = f"{inst}{i}"
         wf = wa if inst == "A" else wb
-        fate = world.tape.choice(["ok", "ok", "ok", "fail", "cancel"], "fate")
+        # "abandon": the caller gives up on the run the asyncio way (asyncio.wait_for(handler, t) / task.cancel()): the run's task is
+        # hard-cancelled wherever it is, possibly while still queued behind the limit
+        fate = world.tape.choice(["ok", "ok", "ok", "fail", "cancel", "abandon"], "fate")
         fates[rid] = fate
         start = EV.Start0(uid=world.uid())
         if fate == "fail":
@@ -137,6 +139,14 @@ async def scenario(world, spec):
                     world.trace.log("cancel-request", run=rid)
                     await h.cancel_run()
             asyncio.ensure_future(canc())
+        elif fate == "abandon":
+            async def abandon(h=h, rid=rid):
+                await asyncio.sleep(world.tape.choice([0, 1, 2, 3], "abandon.at"))
+                if not h.is_done():
+                    world.trace.log("cancel-request", run=rid, hard=True)
+                    world.probe("run-hard-cancelled")
+                    h._result_task.cancel()       # what cancelling a task that awaits the handler does
+            asyncio.ensure_future(abandon())
     world._spec = spec
     q = world.loop.quiesce()
     allt = asyncio.ensure_future(asyncio.gather(*[h._result_task for h in handlers.values()], return_exceptions=True))
@@ -197,7 +207,7 @@ def check(world, spec, outcome) -> None:
             live[inst].discard(f["run"])
             if fates.get(f["run"]) == "fail":
                 world.probe("slot-released-by-failure")
-            elif fates.get(f["run"]) == "cancel":
+            elif fates.get(f["run"]) in ("cancel", "abandon"):
                 world.probe("slot-released-by-cancel")
         elif kind == "stable":
             for inst in sorted(live):
